@@ -687,9 +687,62 @@ func genLoop(o *out) {
 		return true
 	})
 	ic, ok1 := caps["interrupt"]
-	dc, ok2 := caps["dispatch"]
-	if !ok1 || !ok2 {
-		die("NewStdScheduler: interrupt / dispatch channels not found")
+	if !ok1 {
+		die("NewStdScheduler: interrupt channel not found")
+	}
+	dc, sharedDispatch := caps["dispatch"]
+	// per-run hand-over channel: `dispatch := make(chan ScheduledJob)` in Start, passed to the loop and the workers
+	perRun := false
+	stDecl := f.method("StdScheduler", "Start")
+	for _, st := range stDecl.Body.List {
+		if as, ok := st.(*ast.AssignStmt); ok && as.Tok == token.DEFINE && len(as.Lhs) == 1 && lpRender(as.Lhs[0]) == "dispatch" && len(as.Rhs) == 1 {
+			if c := lpIsCall(as.Rhs[0], "make"); c != nil {
+				if _, isChan := c.Args[0].(*ast.ChanType); isChan {
+					if sharedDispatch {
+						die("Start: a per-run dispatch channel next to the dispatch field of the scheduler")
+					}
+					perRun = true
+					dc = 0
+					if len(c.Args) > 1 {
+						dc = f.intOf(c.Args[1])
+					}
+				}
+			}
+		}
+	}
+	if !sharedDispatch && !perRun {
+		die("dispatch channel found neither in NewStdScheduler nor in Start")
+	}
+	dispName := "sched.dispatch"
+	if perRun {
+		dispName = "dispatch"
+		// the channel must reach the loop, the workers and the hand-over
+		passes := func(fn string, n ast.Node) bool {
+			for _, c := range lpCalls(n, fn) {
+				if len(c.Args) == 2 && lpRender(c.Args[1]) == "dispatch" {
+					return true
+				}
+			}
+			return false
+		}
+		if !passes("sched.startExecutionLoop", stDecl.Body) || !passes("sched.startWorkers", stDecl.Body) ||
+			!passes("sched.executeAndReschedule", f.method("StdScheduler", "startExecutionLoop").Body) {
+			die("Start: the per-run dispatch channel is not passed to startExecutionLoop / startWorkers / executeAndReschedule")
+		}
+		for _, fn := range []string{"startExecutionLoop", "startWorkers", "executeAndReschedule"} {
+			fd := f.method("StdScheduler", fn)
+			okp := false
+			for _, fl := range fd.Type.Params.List {
+				for _, nm := range fl.Names {
+					if nm.Name == "dispatch" {
+						okp = true
+					}
+				}
+			}
+			if !okp {
+				die("%s: no parameter named dispatch", fn)
+			}
+		}
 	}
 	rs := f.method("StdScheduler", "Reset")
 	nonblocking := false
@@ -722,6 +775,8 @@ func genLoop(o *out) {
 	o.line("(* NewStdScheduler, Reset *)")
 	o.line("Definition interrupt_cap : Z := %s.", coqZ(ic))
 	o.line("Definition dispatch_cap : Z := %s.", coqZ(dc))
+	o.line("(* the hand-over channel is created by Start for each run (false: one channel field shared by all runs) *)")
+	o.line("Definition dispatch_per_run : bool := %s.", coqBool(perRun))
 	o.line("Definition reset_nonblocking : bool := %s.", coqBool(nonblocking))
 
 	// ---------------- API methods ----------------
@@ -913,7 +968,7 @@ func genLoop(o *out) {
 			send, done := false, false
 			for _, c := range s.Body.List {
 				k := c.(*ast.CommClause)
-				if lpCommSend(k) == "sched.dispatch" {
+				if lpCommSend(k) == dispName {
 					send = true
 				}
 				if lpCommRecv(k) == "ctx.Done()" {
@@ -921,14 +976,14 @@ func genLoop(o *out) {
 				}
 			}
 			if !send {
-				die("executeAndReschedule: select without a send on sched.dispatch")
+				die("executeAndReschedule: select without a send on %s", dispName)
 			}
 			act = "DSendDispatch"
 			sendSelDone = done
 		default:
 			n := 0
 			for _, s := range cc.Body {
-				if ss, ok := s.(*ast.SendStmt); ok && callName(ss.Chan) == "sched.dispatch" {
+				if ss, ok := s.(*ast.SendStmt); ok && callName(ss.Chan) == dispName {
 					act = "DSendDispatch"
 					sendSelDone = false
 				}
@@ -1018,7 +1073,7 @@ func genLoop(o *out) {
 						done = true
 					}
 				}
-			case "sched.dispatch":
+			case dispName:
 				disp = true
 				n := 0
 				for _, st := range k.Body {
